@@ -65,9 +65,9 @@ fn handshake_frame(w: &World, netk: Net, signer: usize, claimed: usize, sid: Vec
     }
 }
 
-/// The victim (index 0) accepts one inbound connection; the peer speaks `transcript` claiming to be identity 1
+/// The victim (index 0) accepts one inbound connection; the peer speaks `transcript` claiming to be identity `who` (1, or 0 = the victim's own identity: the inbound end of a loopback connection)
 /// (the adversary owns identity 2). Returns the identity the victim admitted, if any.
-async fn inbound_case(ctx: &ctx::Ctx, w: &mut World, netk: Net, transcript: &str, rng: &mut StdRng) -> Option<String> {
+async fn inbound_case(ctx: &ctx::Ctx, w: &mut World, netk: Net, transcript: &str, who: usize, rng: &mut StdRng) -> Option<String> {
     let (addr, mut listener) = crate::transport::listen_localhost();
     let addr = &addr;
     let endpoint = if netk == Net::Gossip { verif::Endpoint::GossipNet } else { verif::Endpoint::ConsensusNet };
@@ -90,13 +90,13 @@ async fn inbound_case(ctx: &ctx::Ctx, w: &mut World, netk: Net, transcript: &str
         let sid = c.id();
         match transcript {
             "honest" => {
-                let f = handshake_frame(wref, netk, 1, 1, sid, genesis);
+                let f = handshake_frame(wref, netk, who, who, sid, genesis);
                 new_record = Some(f.clone());
                 let _ = send_raw(&mut c, &f).await;
                 let _ = recv_raw(&mut c).await;
             }
             "replayed-from-other-session" => {
-                let f = wref.recorded.iter().rev().find(|r| r.0 == netk).map(|r| r.2.clone()).unwrap_or_else(|| handshake_frame(wref, netk, 1, 1, vec![7; 32], genesis));
+                let f = wref.recorded.iter().rev().find(|r| r.0 == netk && r.1 == who).map(|r| r.2.clone()).unwrap_or_else(|| handshake_frame(wref, netk, who, who, vec![7; 32], genesis));
                 let _ = send_raw(&mut c, &f).await;
             }
             "relayed-by-mitm" => {
@@ -109,8 +109,8 @@ async fn inbound_case(ctx: &ctx::Ctx, w: &mut World, netk: Net, transcript: &str
                         // honest dialler (real outbound code), it will fail in the end - irrelevant
                         if let Ok(mut st) = verif::preface_connect(ctx, *addr2, endpoint).await {
                             match netk {
-                                Net::Gossip => { let _ = verif::gossip_handshake_outbound(ctx, &cfgs[1], genesis, &mut st, &cfgs[2].gossip.key.public()).await; }
-                                Net::Consensus => { let _ = verif::consensus_handshake_outbound(ctx, &vkeys[1], genesis, &mut st, &vkeys[2].public()).await; }
+                                Net::Gossip => { let _ = verif::gossip_handshake_outbound(ctx, &cfgs[who], genesis, &mut st, &cfgs[2].gossip.key.public()).await; }
+                                Net::Consensus => { let _ = verif::consensus_handshake_outbound(ctx, &vkeys[who], genesis, &mut st, &vkeys[2].public()).await; }
                             }
                         }
                         Ok(())
@@ -125,30 +125,30 @@ async fn inbound_case(ctx: &ctx::Ctx, w: &mut World, netk: Net, transcript: &str
                 }
             }
             "signed-by-other-key" => {
-                let f = handshake_frame(wref, netk, 2, 1, sid, genesis);
+                let f = handshake_frame(wref, netk, 2, who, sid, genesis);
                 let _ = send_raw(&mut c, &f).await;
             }
             "right-key-wrong-session-id" => {
                 let mut s2 = sid.clone();
                 let i = rng.gen_range(0..s2.len());
                 s2[i] ^= 1 << rng.gen_range(0..8);
-                let _ = send_raw(&mut c, &handshake_frame(wref, netk, 1, 1, s2, genesis)).await;
+                let _ = send_raw(&mut c, &handshake_frame(wref, netk, who, who, s2, genesis)).await;
             }
             "right-key-truncated-session-id" => {
                 let mut s2 = sid.clone();
                 s2.pop();
-                let _ = send_raw(&mut c, &handshake_frame(wref, netk, 1, 1, s2, genesis)).await;
+                let _ = send_raw(&mut c, &handshake_frame(wref, netk, who, who, s2, genesis)).await;
             }
             "right-key-extended-session-id" => {
                 let mut s2 = sid.clone();
                 s2.push(0);
-                let _ = send_raw(&mut c, &handshake_frame(wref, netk, 1, 1, s2, genesis)).await;
+                let _ = send_raw(&mut c, &handshake_frame(wref, netk, who, who, s2, genesis)).await;
             }
             "wrong-genesis" => {
-                let _ = send_raw(&mut c, &handshake_frame(wref, netk, 1, 1, sid, wref.other_genesis)).await;
+                let _ = send_raw(&mut c, &handshake_frame(wref, netk, who, who, sid, wref.other_genesis)).await;
             }
             "malformed-frame" => {
-                let mut f = handshake_frame(wref, netk, 1, 1, sid, genesis);
+                let mut f = handshake_frame(wref, netk, who, who, sid, genesis);
                 let i = rng.gen_range(0..f.len());
                 f.truncate(i);
                 let _ = send_raw(&mut c, &f).await;
@@ -162,13 +162,13 @@ async fn inbound_case(ctx: &ctx::Ctx, w: &mut World, netk: Net, transcript: &str
     })
     .await;
     if let Some(f) = new_record {
-        w.recorded.push((netk, 1, f));
+        w.recorded.push((netk, who, f));
     }
     res.ok().flatten()
 }
 
-/// The victim (index 0) dials a peer expecting identity 1; the harness is the server and answers with `transcript`.
-async fn outbound_case(ctx: &ctx::Ctx, w: &World, netk: Net, transcript: &str) -> bool {
+/// The victim (index 0) dials a peer expecting identity `who` (1, or 0 = its own identity: the loopback dial of a validator); the harness is the server and answers with `transcript`.
+async fn outbound_case(ctx: &ctx::Ctx, w: &World, netk: Net, transcript: &str, who: usize) -> bool {
     let (addr, mut listener) = crate::transport::listen_localhost();
     let addr = &addr;
     let endpoint = if netk == Net::Gossip { verif::Endpoint::GossipNet } else { verif::Endpoint::ConsensusNet };
@@ -176,22 +176,24 @@ async fn outbound_case(ctx: &ctx::Ctx, w: &World, netk: Net, transcript: &str) -
         let victim = s.spawn(async {
             let mut st = verif::preface_connect(ctx, *addr, endpoint).await.map_err(env_fail)?;
             Ok(match netk {
-                Net::Gossip => verif::gossip_handshake_outbound(ctx, &w.cfgs[0], w.genesis, &mut st, &w.cfgs[1].gossip.key.public()).await.is_ok(),
-                Net::Consensus => verif::consensus_handshake_outbound(ctx, &w.vkeys[0], w.genesis, &mut st, &w.vkeys[1].public()).await.is_ok(),
+                Net::Gossip => verif::gossip_handshake_outbound(ctx, &w.cfgs[0], w.genesis, &mut st, &w.cfgs[who].gossip.key.public()).await.is_ok(),
+                Net::Consensus => verif::consensus_handshake_outbound(ctx, &w.vkeys[0], w.genesis, &mut st, &w.vkeys[who].public()).await.is_ok(),
             })
         });
         let tcp = verif::tcp_accept(ctx, &mut listener).await.map_err(env_fail)?;
         let (mut m, _) = verif::preface_accept(ctx, tcp).await.map_err(env_fail)?;
         let sid = m.id();
-        let _ = recv_raw(&mut m).await;
+        let own = recv_raw(&mut m).await.unwrap_or_default();
         let f = match transcript {
-            "honest" => handshake_frame(w, netk, 1, 1, sid, w.genesis),
+            // loopback dial only: the adversary signs nothing, it echoes the dialler's own handshake frame
+            "reflected-own-frame" => own,
+            "honest" => handshake_frame(w, netk, who, who, sid, w.genesis),
             // a genuine, correctly signed handshake of another identity than the one that was dialled
             "other-identity" => handshake_frame(w, netk, 2, 2, sid, w.genesis),
-            "signed-by-other-key" => handshake_frame(w, netk, 2, 1, sid, w.genesis),
-            "replayed-from-other-session" => w.recorded.iter().rev().find(|r| r.0 == netk).map(|r| r.2.clone()).unwrap_or_else(|| handshake_frame(w, netk, 1, 1, vec![9; 32], w.genesis)),
-            "wrong-genesis" => handshake_frame(w, netk, 1, 1, sid, w.other_genesis),
-            _ => handshake_frame(w, netk, 1, 1, { let mut s = sid.clone(); s[0] ^= 1; s }, w.genesis),
+            "signed-by-other-key" => handshake_frame(w, netk, 2, who, sid, w.genesis),
+            "replayed-from-other-session" => w.recorded.iter().rev().find(|r| r.0 == netk && r.1 == who).map(|r| r.2.clone()).unwrap_or_else(|| handshake_frame(w, netk, who, who, vec![9; 32], w.genesis)),
+            "wrong-genesis" => handshake_frame(w, netk, who, who, sid, w.other_genesis),
+            _ => handshake_frame(w, netk, who, who, { let mut s = sid.clone(); s[0] ^= 1; s }, w.genesis),
         };
         let _ = send_raw(&mut m, &f).await;
         victim.join(ctx).await.map_err(|_| ())
@@ -223,41 +225,48 @@ pub fn run(args: &Args, rep: &mut Report) {
             if round > 40 && el < min_ms {
                 tokio::time::sleep(std::time::Duration::from_millis(min_ms - el)).await;
             }
+            // every third round the claimed / dialled identity is the victim's own one (a validator's loopback connection)
+            let who: usize = if round % 3 == 2 { 0 } else { 1 };
+            let lb = if who == 0 { "loopback_" } else { "" };
             for netk in [Net::Gossip, Net::Consensus] {
                 for t in TRANSCRIPTS {
                     ENV_FAIL.store(false, std::sync::atomic::Ordering::SeqCst);
-                    let admitted = inbound_case(&root, &mut w, netk, t, &mut rng).await;
+                    let admitted = inbound_case(&root, &mut w, netk, t, who, &mut rng).await;
                     if admitted.is_none() && ENV_FAIL.load(std::sync::atomic::Ordering::SeqCst) {
                         rep.count("sessions_lost_to_the_environment");
                         continue;
                     }
                     rep.evaluations += 1;
-                    rep.count(&format!("inbound_{netk:?}_{t}"));
+                    rep.count(&format!("{lb}inbound_{netk:?}_{t}"));
                     rep.distinct(vcommon::hash_of(&(args.shard, round, format!("{netk:?}"), t, "in")));
-                    let expected: Option<String> = if t == "honest" { Some(match netk { Net::Gossip => format!("{:?}", w.cfgs[1].gossip.key.public()), Net::Consensus => format!("{:?}", w.vkeys[1].public()) }) } else { None };
-                    let replay = json!({"round": round, "net": format!("{netk:?}"), "direction": "inbound", "transcript": t});
+                    let expected: Option<String> = if t == "honest" { Some(match netk { Net::Gossip => format!("{:?}", w.cfgs[who].gossip.key.public()), Net::Consensus => format!("{:?}", w.vkeys[who].public()) }) } else { None };
+                    let replay = json!({"round": round, "net": format!("{netk:?}"), "direction": "inbound", "transcript": t, "claimed_identity": who});
                     match (&admitted, &expected) {
-                        (Some(a), None) => rep.violation(format!("admitted-without-proof||{netk:?}/inbound/{t}"), format!("the victim admitted {a} on a session where the peer used transcript `{t}`"), replay),
+                        (Some(a), None) => rep.violation(format!("admitted-without-proof||{netk:?}/{lb}inbound/{t}"), format!("the victim admitted {a} on a session where the peer used transcript `{t}`"), replay),
                         (None, Some(_)) => rep.violation(format!("honest-peer-refused||{netk:?}/inbound"), "an honest handshake over this very session was refused".to_string(), replay),
                         (Some(a), Some(e)) if a != e => rep.violation(format!("admitted-as-wrong-identity||{netk:?}/inbound"), format!("admitted {a}, signer was {e}"), replay),
                         (Some(_), Some(_)) => rep.count("honest_admissions"),
                         (None, None) => rep.count("adversarial_transcripts_refused"),
                     }
                 }
-                for t in ["honest", "other-identity", "signed-by-other-key", "replayed-from-other-session", "wrong-genesis", "wrong-session-id"] {
+                for t in ["honest", "other-identity", "signed-by-other-key", "replayed-from-other-session", "wrong-genesis", "wrong-session-id", "reflected-own-frame"] {
+                    // reflection only makes sense where a node dials its own identity, and only the validator network does that
+                    if t == "reflected-own-frame" && !(who == 0 && netk == Net::Consensus) {
+                        continue;
+                    }
                     ENV_FAIL.store(false, std::sync::atomic::Ordering::SeqCst);
-                    let ok = outbound_case(&root, &w, netk, t).await;
+                    let ok = outbound_case(&root, &w, netk, t, who).await;
                     if !ok && ENV_FAIL.load(std::sync::atomic::Ordering::SeqCst) {
                         rep.count("sessions_lost_to_the_environment");
                         continue;
                     }
                     rep.evaluations += 1;
-                    rep.count(&format!("outbound_{netk:?}_{t}"));
+                    rep.count(&format!("{lb}outbound_{netk:?}_{t}"));
                     rep.distinct(vcommon::hash_of(&(args.shard, round, format!("{netk:?}"), t, "out")));
-                    let replay = json!({"round": round, "net": format!("{netk:?}"), "direction": "outbound", "transcript": t});
+                    let replay = json!({"round": round, "net": format!("{netk:?}"), "direction": "outbound", "transcript": t, "dialled_identity": who});
                     if ok != (t == "honest") {
                         if ok {
-                            rep.violation(format!("admitted-without-proof||{netk:?}/outbound/{t}"), format!("the dialling victim accepted a peer that answered with transcript `{t}`"), replay);
+                            rep.violation(format!("admitted-without-proof||{netk:?}/{lb}outbound/{t}"), format!("the dialling victim accepted a peer that answered with transcript `{t}`"), replay);
                         } else {
                             rep.violation(format!("honest-peer-refused||{netk:?}/outbound"), "the dialled honest peer was refused".to_string(), replay);
                         }
